@@ -896,7 +896,7 @@ class Engine:
 
         # ---- havoc -----------------------------------------------------------------------------
         names, mutated = self.assigned_names(I, s.body, fr)
-        mutated |= set(spec.modifies)
+        mutated |= set(m for m in spec.modifies if not m.startswith("heap:"))
         havocked_ids = set()
         start_serial = next(_creation)
         pre_py = set()
